@@ -12,17 +12,25 @@ func AuthorizeEmailUse(ctx context.Context, username string, addrs []string, map
 	var validEmails []string
 
 	if multi, ok := mapping.(module.MultiTable); ok {
-		var err error
-		validEmails, err = multi.LookupMulti(ctx, username)
+		entries, err := multi.LookupMulti(ctx, username)
 		if err != nil {
 			return false, fmt.Errorf("authz: %w", err)
+		}
+		// An empty entry (table.file returns one for a key-only line or
+		// a value list ending with a comma) names neither an address nor
+		// a domain. It would be equal to the empty domain address.Split
+		// returns for the domain-less <postmaster> though.
+		for _, ent := range entries {
+			if ent != "" {
+				validEmails = append(validEmails, ent)
+			}
 		}
 	} else {
 		validEmail, ok, err := mapping.Lookup(ctx, username)
 		if err != nil {
 			return false, fmt.Errorf("authz: %w", err)
 		}
-		if ok {
+		if ok && validEmail != "" {
 			validEmails = []string{validEmail}
 		}
 	}
